@@ -58,6 +58,7 @@ Inductive op :=
 | Observe (i : nat)                      (* needs_local_optimization / number of params / evaluate* / formatted string / complexity *)
 | SetFitness (i : nat) (f : Z)
 | SetAge (i : nat) (a : Z)
+| SetFlag (i : nat) (b : bool)           (* g.fit_set = b  (Island.reset_fitness clears the flag and keeps the value) *)
 | Copy (i : nat).                        (* copy.deepcopy(g) / g.copy(): the duplicate becomes the last object *)
 
 Definition set_obj (w : world) (h : list stack) (i : nat) (g : obj) : world := mkW h (upd (objs w) i g).
@@ -98,6 +99,10 @@ Definition step (w : world) (o : op) : world :=
       match nth_error (objs w) i with None => w | Some g =>
         set_obj w h i (mkO (cmd_p g) (simp_p g) (consts g) (needs_opt g) (modified g) (use_simp g) (fitness g) (fit_set g) a)
       end
+  | SetFlag i b =>
+      match nth_error (objs w) i with None => w | Some g =>
+        set_obj w h i (mkO (cmd_p g) (simp_p g) (consts g) (needs_opt g) (modified g) (use_simp g) (fitness g) b (age g))
+      end
   | Copy i =>
       match nth_error (objs w) i with None => w | Some g =>
         let '(h1, p1) := alloc h (nth (cmd_p g) h []) in          (* np.copy(self.command_array) *)
@@ -130,6 +135,6 @@ Arguments mkO {Cst}. Arguments mkW {Cst}. Arguments cmd_p {Cst}. Arguments simp_
 Arguments needs_opt {Cst}. Arguments modified {Cst}. Arguments use_simp {Cst}. Arguments fitness {Cst}. Arguments fit_set {Cst}.
 Arguments age {Cst}. Arguments heap {Cst}. Arguments objs {Cst}.
 Arguments New {Cst}. Arguments SetArray {Cst}. Arguments WriteRow {Cst}. Arguments SetConsts {Cst}. Arguments Observe {Cst}.
-Arguments SetFitness {Cst}. Arguments SetAge {Cst}. Arguments Copy {Cst}.
+Arguments SetFitness {Cst}. Arguments SetAge {Cst}. Arguments SetFlag {Cst}. Arguments Copy {Cst}.
 Arguments mkV {Cst}. Arguments v_cmd {Cst}. Arguments v_simp {Cst}. Arguments v_consts {Cst}. Arguments v_needs {Cst}.
 Arguments v_mod {Cst}. Arguments v_flag {Cst}. Arguments v_fit {Cst}. Arguments v_fset {Cst}. Arguments v_age {Cst}.
